@@ -678,4 +678,12 @@ def main():
 
 
 if __name__ == "__main__":
-    main()
+    try:
+        main()
+    except SystemExit:
+        raise
+    except BaseException as e:  # noqa: BLE001 — an internal error of the checker is never an alarm
+        import traceback
+        traceback.print_exc()
+        print("UNDECIDED: internal error of the checker (%s: %s)" % (type(e).__name__, str(e)[:300]))
+        sys.exit(2)
